@@ -10,8 +10,8 @@
    Part A  media type guards of notation.VerifyBlob / Sign*            (b_stype_bad, b_ctype_bad)
    Part B  isCriticalFailure = the model's [crit]
    Part C  verifyUserMetadata: total, nil iff every required pair is present   (s_meta_ok)
-   Part D  checkRevocationResults / revocationFinalResult: what the shape test of fix d78db00
-           protects and what it does not (a nil server result)           (rev_failed)
+   Part D  checkRevocationResults / revocationFinalResult: behind the shape test of fix d78db00 the
+           call is total (since fix a146158 also with nil server results)  (rev_failed)
    Part E  verifyX509TrustedIdentities: certs[0]
    Part F  verifyExpiry: the dereferences of outcome.EnvelopeContent / .VerificationLevel
    Part G  policy selection: artifactReference[:i] never panics; a nil document does (skip_verify_v0)
@@ -167,7 +167,7 @@ Proof.
 Qed.
 
 (* ================================================================== *)
-(* Part D — the revocation results: what the shape test protects        *)
+(* Part D — the revocation results: the shape test makes the call total *)
 
 Section Cert.
 Variable C : Type.
@@ -178,9 +178,6 @@ Notation gen_final := (gen_verifier_revocationFinalResult C subj).
 Notation loop1 := (gen_verifier_revocationFinalResult_loop1 C subj).
 
 Definition nonnil_result (p : ptr result_CertRevocationResult) : bool := GoLib.is_some (ptr_val p).
-
-Definition nonnil_servers (r : result_CertRevocationResult) : bool :=
-  forallb (fun p => GoLib.is_some (ptr_val p)) (CertRevocationResult_ServerResults r).
 
 Lemma check_loop l : forall i,
   gen_verifier_checkRevocationResults_loop1 l i = None <-> forallb nonnil_result l = true.
@@ -202,22 +199,22 @@ Proof.
   - apply Z.eqb_neq in E. split; [discriminate|]. intros [H _]. lia.
 Qed.
 
-(* the inner loop over the server results only logs: it panics on a nil entry *)
+(* the inner loop over the server results only logs, and since fix a146158 it skips a nil entry:
+   it never panics and changes nothing *)
 Lemma servers_loop K r l :
-  gen_verifier_revocationFinalResult_loop2 K r l
-  = if forallb (fun p => GoLib.is_some (ptr_val p)) l then K tt else None.
+  gen_verifier_revocationFinalResult_loop2 K r l = K tt.
 Proof.
   induction l as [|p l IH]; [reflexivity|].
-  cbn [gen_verifier_revocationFinalResult_loop2 forallb].
-  destruct (ptr_val p) as [sv|]; cbn [GoLib.is_some andb]; [|reflexivity].
-  repeat match goal with |- context [if ?b then _ else _] =>
-    lazymatch b with forallb _ _ => fail | _ => destruct b end end; exact IH.
+  cbn [gen_verifier_revocationFinalResult_loop2]. cbv zeta.
+  destruct (ptr_val p) as [sv|]; [|exact IH].
+  cbn [obind].
+  repeat match goal with |- context [if ?b then _ else _] => destruct b end; exact IH.
 Qed.
 
-(* index i can be processed: both slices have it, the result and its server results are non-nil *)
+(* index i can be processed: both slices have it and the result is non-nil *)
 Definition ok_at (results : list (ptr result_CertRevocationResult)) (chain : list C) (i : Z) : bool :=
   match list_get chain i, list_get results i with
-  | Some _, Some p => match ptr_val p with Some r => nonnil_servers r | None => false end
+  | Some _, Some p => GoLib.is_some (ptr_val p)
   | _, _ => false
   end.
 
@@ -231,12 +228,10 @@ Proof.
   - cbn [gen_verifier_revocationFinalResult_loop1 forallb]. unfold ok_at at 1.
     destruct (list_get chain i) as [c|]; [|split; [intros H; contradiction H; reflexivity|discriminate]].
     destruct (list_get results i) as [p|]; [|split; [intros H; contradiction H; reflexivity|discriminate]].
-    destruct (ptr_val p) as [r|]; [|split; [intros H; contradiction H; reflexivity|discriminate]].
-    rewrite servers_loop. unfold nonnil_servers.
-    destruct (forallb (fun p0 => GoLib.is_some (ptr_val p0)) (CertRevocationResult_ServerResults r));
-      cbn [andb]; [|split; [intros H; contradiction H; reflexivity|discriminate]].
-    repeat match goal with |- context [if ?b then _ else _] =>
-      lazymatch b with forallb _ _ => fail | _ => destruct b end end; apply IH.
+    destruct (ptr_val p) as [r|]; cbn [GoLib.is_some andb];
+      [|split; [intros H; contradiction H; reflexivity|discriminate]].
+    rewrite servers_loop.
+    repeat match goal with |- context [if ?b then _ else _] => destruct b end; apply IH.
 Qed.
 
 (* revocationFinalResult on ALL inputs: it returns iff every index of certResults can be processed *)
@@ -251,36 +246,18 @@ Proof.
     subst z. apply H. apply in_seq in Hk. lia.
 Qed.
 
-Definition servers_ok (p : ptr result_CertRevocationResult) : bool :=
-  match ptr_val p with Some r => nonnil_servers r | None => true end.
-
-(* Behind the shape test the only panic left is a nil entry among the ServerResults of some result
-   (serverResult.Error, verifier/verifier.go:887): the test does not look at them. *)
-Theorem gen_revocation_guard results chain :
-  gen_check results chain = None ->
-  (gen_final results chain <> None <-> forallb servers_ok results = true).
+(* Behind the shape test the call never panics, whatever the validator answered (since fix a146158 also
+   with nil entries among the server results of a result): no contract on the validator is left. *)
+Theorem gen_revocation_total results chain :
+  gen_check results chain = None -> gen_final results chain <> None.
 Proof.
   intros G. apply gen_checkRevocationResults_spec in G. destruct G as [L N].
-  rewrite gen_revocationFinalResult_returns_iff, forallb_forall. rewrite forallb_forall in N.
-  split.
-  - intros H p I. destruct (In_nth_error _ _ I) as [k Hk].
-    assert (Hl : (k < List.length results)%nat) by (apply nth_error_Some; rewrite Hk; discriminate).
-    specialize (H k Hl). unfold ok_at in H. rewrite !list_get_nth, Hk in H.
-    destruct (nth_error chain k); [|discriminate]. unfold servers_ok.
-    destruct (ptr_val p); [exact H|reflexivity].
-  - intros H k Hk. unfold ok_at. rewrite !list_get_nth.
-    destruct (nth_error chain k) eqn:Ec; [|apply nth_error_None in Ec; lia].
-    destruct (nth_error results k) as [p|] eqn:Er; [|apply nth_error_None in Er; lia].
-    apply nth_error_In in Er. specialize (H p Er). specialize (N p Er).
-    unfold servers_ok in H. unfold nonnil_result in N.
-    destruct (ptr_val p); [exact H|discriminate].
+  rewrite gen_revocationFinalResult_returns_iff. rewrite forallb_forall in N.
+  intros k Hk. unfold ok_at. rewrite !list_get_nth.
+  destruct (nth_error chain k) eqn:Ec; [|apply nth_error_None in Ec; lia].
+  destruct (nth_error results k) as [p|] eqn:Er; [|apply nth_error_None in Er; lia].
+  apply nth_error_In in Er. exact (N p Er).
 Qed.
-
-(* within the remaining contract (no nil server result) the guarded call never panics *)
-Corollary gen_revocation_total results chain :
-  gen_check results chain = None -> forallb servers_ok results = true ->
-  gen_final results chain <> None.
-Proof. intros G S. apply (gen_revocation_guard results chain G). exact S. Qed.
 
 (* without the shape test (before fix d78db00) fewer results than certificates is fine, more results or a
    nil result panic *)
@@ -295,26 +272,26 @@ Proof.
     destruct (nth_error chain (List.length chain)) eqn:X; [|discriminate].
     assert (Y : nth_error chain (List.length chain) <> None) by (rewrite X; discriminate).
     apply nth_error_Some in Y. lia.
-  - assert (X : exists p, In p results /\ nonnil_result p = false).
-    { clear -H. induction results as [|p l IH]; [discriminate|]. cbn [forallb] in H.
-      destruct (nonnil_result p) eqn:N.
-      - destruct (IH H) as [q [I Q]]. exists q. split; [right; exact I|exact Q].
-      - exists p. split; [left; reflexivity|exact N]. }
+  - assert (X : exists q, In q results /\ nonnil_result q = false).
+    { clear -H. induction results as [|q l IH]; [discriminate|]. cbn [forallb] in H.
+      destruct (nonnil_result q) eqn:N.
+      - destruct (IH H) as [q' [I Q]]. exists q'. split; [right; exact I|exact Q].
+      - exists q. split; [left; reflexivity|exact N]. }
     destruct X as [q [I N]]. destruct (In_nth_error _ _ I) as [k Hk].
     assert (Hl : (k < List.length results)%nat) by (apply nth_error_Some; rewrite Hk; discriminate).
     specialize (R k Hl). unfold ok_at in R. rewrite !list_get_nth, Hk in R. unfold nonnil_result in N.
-    destruct (nth_error chain k); [|discriminate]. destruct (ptr_val q); discriminate.
+    destruct (nth_error chain k); [|discriminate]. rewrite R in N. discriminate.
 Qed.
 End Cert.
 
-(* the input on which the shape test passes and the code panics: one certificate, one result that is
-   fine, with a nil entry among its server results *)
+(* the input on which the code panicked before fix a146158 (found because the translation of the loop was
+   None there): one certificate, one result that is fine, with a nil entry among its server results *)
 Definition nil_server_results : list (ptr result_CertRevocationResult) :=
   [PNew (mk_CertRevocationResult 1 [PNil] 0)].
 
-Theorem gen_revocation_nil_server_panics (C : Type) (subj : C -> string) (c : C) :
+Theorem gen_revocation_nil_server_ok (C : Type) (subj : C -> string) (c : C) :
   gen_verifier_checkRevocationResults C nil_server_results [c] = None
-  /\ gen_verifier_revocationFinalResult C subj nil_server_results [c] = None.
+  /\ gen_verifier_revocationFinalResult C subj nil_server_results [c] = Some (1%Z, "").
 Proof. split; reflexivity. Qed.
 
 (* ================================================================== *)
@@ -757,3 +734,23 @@ Theorem gen_checkExpiry_spec now next :
     else if (now >? next)%Z then Some (Err "errors" "cache miss" [])
     else None.
 Proof. reflexivity. Qed.
+
+(* ================================================================== *)
+(* Part K — getVerificationPlugin (the model's s_pattr: PAbsent / PInvalid / PName) *)
+
+(* a pure function: whatever the attribute look-up (an oracle: notation-core-go and a type assertion)
+   answers, the name handed on is non-blank exactly when no error is returned, and empty otherwise *)
+Theorem gen_getVerificationPlugin_spec (C : Type) extract si :
+  let r := gen_verifier_getVerificationPlugin C extract si in
+  match snd r with
+  | None => String.eqb (str_trim_space (fst r)) "" = false
+            /\ extract si "io.cncf.notary.verificationPlugin" = (fst r, None)
+  | Some _ => fst r = ""
+  end.
+Proof.
+  cbv zeta. unfold gen_verifier_getVerificationPlugin.
+  destruct (extract si "io.cncf.notary.verificationPlugin") as [name e].
+  destruct e as [e|]; cbn [GoLib.is_none negb snd fst]; [reflexivity|].
+  destruct (String.eqb (str_trim_space name) "") eqn:E; cbn [snd fst]; [reflexivity|].
+  split; [exact E|reflexivity].
+Qed.
